@@ -59,25 +59,59 @@ def showErr : Err → String
   | .stopIter => "ERR:StopIteration"
   | .bad => "BAD"
 
+def parseKV? (s : String) : Option (Nat × Nat) :=
+  match s.splitOn "=" with
+  | [k, v] => do pure (← k.toNat?, ← v.toNat?)
+  | _ => none
+
+/-- `k=f,k=f` or `-` -/
+def parseKVs? (s : String) : Option (List (Nat × Nat)) :=
+  if s = "-" then some [] else (s.splitOn ",").mapM parseKV?
+
+def parseFlag? (s : String) : Option Bool :=
+  if s = "0" then some false else if s = "1" then some true else none
+
+/-- tractogram operations; every other token is a sequence operation -/
+def parseTOp? (tok : String) : Option TOp :=
+  match tok.splitOn ":" with
+  | ["tnew", s, kvs, fl, w] => do
+      let src ← (if s = "_" then some none else s.toNat?.map some)
+      pure (TOp.tnew src (← parseKVs? kvs) (← parseFlag? fl) (← w.toNat?))
+  | ["tsl", t, a, b, c] => do
+      pure (TOp.tget (← t.toNat?) (.slice ⟨← parseOptInt? a, ← parseOptInt? b, ← parseOptInt? c⟩))
+  | ["tidx", t, l] => do pure (TOp.tget (← t.toNat?) (.fancy (← parseIntList? l)))
+  | ["text", t, u, w] => do pure (TOp.textend (← t.toNat?) (← u.toNat?) (← w.toNat?))
+  | ["tset", t, k, s, fl, w] => do
+      pure (TOp.tset (← t.toNat?) (← k.toNat?) (← s.toNat?) (← parseFlag? fl) (← w.toNat?))
+  | _ => (parseOp? tok).map TOp.seq
+
+def showTract (t : Tract) : String :=
+  toString t.sl ++ ";" ++ ",".intercalate (t.dpp.map (fun kv => toString kv.1 ++ "=" ++ toString kv.2)) ++
+    ";" ++ toString t.nRows
+
+/-- all live sequences, then (when there are tractograms) which sequences each tractogram holds -/
+def showT (τ : TState) : String :=
+  showAll τ.st ++ (if τ.tracts.isEmpty then "" else " @ " ++ "/".intercalate (τ.tracts.map showTract))
+
 /-- run the history, one output chunk per step; `none` = ill-formed operation -/
-def runShow (σ : State) : List Op → Option (List String)
+def runShow (τ : TState) : List TOp → Option (List String)
   | [] => some []
   | op :: ops =>
-    match step σ op with
-    | .error .bad => none
-    | .error e => (runShow σ ops).map (fun r => (showErr e ++ "|" ++ showAll σ) :: r)
-    | .ok σ' =>
+    match tstep τ op with
+    | (_, some .bad) => none
+    | (τ', some e) => (runShow τ' ops).map (fun r => (showErr e ++ "|" ++ showT τ') :: r)
+    | (τ', none) =>
       let status := match op with
-        | .getInt t i => match getInt σ t i with
+        | .seq (.getInt t i) => match getInt τ.st t i with
           | some e => "get=" ++ showElem e
           | none => "BAD"
         | _ => "ok"
-      (runShow σ' ops).map (fun r => (status ++ "|" ++ showAll σ') :: r)
+      (runShow τ' ops).map (fun r => (status ++ "|" ++ showT τ') :: r)
 
 def handle : List String → String
   | "hist" :: toks =>
-      match toks.mapM parseOp? with
-      | some ops => match runShow State.init ops with
+      match toks.mapM parseTOp? with
+      | some ops => match runShow TState.init ops with
         | some outs => " ; ".intercalate outs
         | none => "bad-op"
       | none => "bad-op"
